@@ -447,8 +447,9 @@ def _linear(repo, col):
     gs0 = next((c for c in exs0.calls if isinstance(c.func, ast.Name) and c.func.id == "gather_synapes" and len(c.args) >= 4), None)
     if gs0 is None:
         raise AnalysisError("Network._synapse_currents no longer calls gather_synapes(n, post rows, slope, offset)")
-    post_rows = _fuse(idx.inline(repo, fs, exs0.term(gs0.args[1])))
-    sl_t, of_t = (_fuse(idx.inline(repo, fs, exs0.term(gs0.args[k]))) for k in (2, 3))
+    KEEP_ = ("convert_point_process_to_distributed",)   # the area conversion is one factor on both currents (decided by R-C09-area)
+    post_rows = _fuse(idx.inline(repo, fs, exs0.term(gs0.args[1]), keep=KEEP_))
+    sl_t, of_t = (_fuse(idx.inline(repo, fs, exs0.term(gs0.args[k]), keep=KEEP_)) for k in (2, 3))
     if sl_t.op != "binop" or sl_t.name != "/":      # (the order of the two is a separate obligation below)
         sl_t, of_t = of_t, sl_t
     ds_["_synapse_currents"] = analyse(fs, sl_t, of_t, "post", post_rows.key(), gs0)
